@@ -1,5 +1,5 @@
 SPECIFICATION Spec
 CONSTANTS
-  Rot = 13
+  Rot = 16
 INVARIANTS Replay
 CHECK_DEADLOCK FALSE
